@@ -39,7 +39,7 @@ def msg_bytes(seed, n):
 @st.composite
 def sign_case(draw):
     value = draw(gens.u64_edge)
-    mk = draw(st.sampled_from(["zero", "zero", "zero", "eq", "minus1", "below", "below", "above", "any"]))
+    mk = draw(st.sampled_from(["zero", "zero", "zero", "zero", "eq", "eq", "minus1", "below", "below", "below", "above", "any"]))
     if mk == "zero":
         mn = 0
     elif mk == "eq":
@@ -53,14 +53,15 @@ def sign_case(draw):
     else:
         mn = draw(gens.u64_edge)
     exp = draw(st.one_of(st.sampled_from([-1, 0, 0, 0, 1, 2, 3, 18]), st.integers(-2, 19)))
-    min_bits = draw(st.one_of(st.sampled_from([0, 0, 0, 1, 2, 3, 4, 5, 61, 62, 63, 64]), st.integers(-1, 65), st.integers(0, 16)))
-    blind = draw(st.one_of(gens.seckey_valid, gens.seckey_valid, gens.seckey_valid, gens.seckey_valid, gens.u256_edge,
+    min_bits = draw(st.one_of(st.sampled_from([0, 0, 0, 1, 2, 3, 4, 5, 61, 62, 63, 64, 64]), st.integers(-1, 65), st.integers(0, 16)))
+    blind = draw(st.one_of(gens.seckey_valid, gens.seckey_valid, gens.seckey_valid, gens.seckey_valid, gens.seckey_valid, gens.seckey_valid, gens.u256_edge,
                            st.sampled_from([0, N, N + 1, gens.M256, N - 1, 1])))
     msg = draw(st.one_of(st.just({"kind": "none"}), st.just({"kind": "none"}),
                          st.builds(lambda h: {"kind": "bytes", "hex": h}, gens.message(4000)),
                          st.builds(lambda d, s: {"kind": "cap", "delta": d, "seed": s}, st.sampled_from([-1, 0, 0, 1, -32, -33, 32]), st.integers(0, 1 << 30))))
-    bufk = draw(st.one_of(st.sampled_from(["full", "full", "full", "max", "max", "max-1", "zero", "64", "65", "exact", "exact-1"]),
-                          st.builds(lambda n: "rand:%d" % n, st.integers(0, RC.MAXPROOF))))
+    bufk = draw(st.sampled_from(["full"] * 8 + ["max"] * 4 + ["max-1", "zero", "64", "65", "exact", "exact", "exact-1", "exact-1", "rand", "rand"]))
+    if bufk == "rand":
+        bufk = "rand:%d" % draw(st.integers(0, RC.MAXPROOF))
     return {"value": value, "min_value": mn, "exp": exp, "min_bits": min_bits, "blind": blind, "nonce": draw(gens.hexbytes(32)), "msg": msg,
             "extra": draw(st.integers(0, 100).flatmap(lambda n: gens.hexbytes(n))), "buf": bufk, "gen": draw(RC.gen_spec), "other": draw(st.integers(0, 1 << 30))}
 
@@ -326,7 +327,7 @@ def run_size(env, case):
 
 
 TESTS = [
-    Test("sign_roundtrip", sign_case, run_sign, quick=1500, thorough=60000,
+    Test("sign_roundtrip", sign_case, run_sign, quick=2000, thorough=60000,
          must_cover=["region:fail", "region:succeed", "region:either", "sign_ok", "exact_value", "mantissa_odd", "mantissa_even", "mantissa=64", "value>=2^63",
                      "min==value", "msg_at_capacity", "msg_too_long", "blind>=n", "buf:max", "buf:exact-1", "exp_reduced", "gen:h", "gen:parse", "gen:blinded", "gen:seed"]),
     Test("max_size_bound", size_case, run_size, quick=600, thorough=20000, must_cover=["value<max", "value==max"]),
